@@ -436,4 +436,69 @@ Fixpoint ms_text_ok (m : ms) : bool :=
   | _ => true
   end.
 
+(* ------------------------------------------------------------------ spellings (specification side)
+   There is no such printer in /repo: [tws sp] writes the same AST with, at every node that has a
+   sugared form, the sugar ([sp m = true]: pk, pkh, t:, l:, u:, and_n - what Display does) or its
+   expansion ([sp m = false]: c:pk_k, c:pk_h, and_v(X,1), or_i(0,X), or_i(X,0), andor(X,Y,0)).
+   [tws (fun _ => true)] is [tw]. *)
+Fixpoint tws (sp : ms -> bool) (m : ms) : tbytes * (tbytes * list etree) :=
+  let sub := fun x => mk_node (tws sp x) in
+  match m with
+  | MTrue => ([], (n_1, []))
+  | MFalse => ([], (n_0, []))
+  | MPkK k => ([], (n_pk_k, [leaf (print_key k)]))
+  | MPkH k => ([], (n_pk_h, [leaf (print_key k)]))
+  | MRawPkH h => ([], (n_expr_raw_pkh, [leaf (print_hash HRawPkh h)]))
+  | MAfter t => ([], (n_after, [leaf (dec t)]))
+  | MOlder t => ([], (n_older, [leaf (dec t)]))
+  | MSha256 h => ([], (n_sha256, [leaf (print_hash HSha256 h)]))
+  | MHash256 h => ([], (n_hash256, [leaf (print_hash HHash256 h)]))
+  | MRipemd160 h => ([], (n_ripemd160, [leaf (print_hash HRipemd160 h)]))
+  | MHash160 h => ([], (n_hash160, [leaf (print_hash HHash160 h)]))
+  | MAlt x => wrap ch_a (tws sp x)
+  | MSwap x => wrap ch_s (tws sp x)
+  | MCheck x =>
+    match x with
+    | MPkK k => if sp m then ([], (n_pk, [leaf (print_key k)])) else wrap ch_c (tws sp x)
+    | MPkH k => if sp m then ([], (n_pkh, [leaf (print_key k)])) else wrap ch_c (tws sp x)
+    | _ => wrap ch_c (tws sp x)
+    end
+  | MDupIf x => wrap ch_d (tws sp x)
+  | MVerify x => wrap ch_v (tws sp x)
+  | MNonZero x => wrap ch_j (tws sp x)
+  | MZeroNotEqual x => wrap ch_n (tws sp x)
+  | MAndV x y => if is_true y && sp m then wrap ch_t (tws sp x) else ([], (n_and_v, [sub x; sub y]))
+  | MAndB x y => ([], (n_and_b, [sub x; sub y]))
+  | MAndOr a b c => if is_false c && sp m then ([], (n_and_n, [sub a; sub b]))
+                    else ([], (n_andor, [sub a; sub b; sub c]))
+  | MOrB x y => ([], (n_or_b, [sub x; sub y]))
+  | MOrD x y => ([], (n_or_d, [sub x; sub y]))
+  | MOrC x y => ([], (n_or_c, [sub x; sub y]))
+  | MOrI x y =>
+    if sp m then
+      if is_false y then wrap ch_u (if is_false x then tws sp y else tws sp x)
+      else if is_false x then wrap ch_l (tws sp y)
+      else ([], (n_or_i, [sub x; sub y]))
+    else ([], (n_or_i, [sub x; sub y]))
+  | MThresh k xs => ([], (n_thresh, leaf (dec k) :: map sub xs))
+  | MMulti k ks => ([], (n_multi, leaf (dec k) :: map (fun k => leaf (print_key k)) ks))
+  | MSortedMulti k ks => ([], (n_sortedmulti, leaf (dec k) :: map (fun k => leaf (print_key k)) ks))
+  | MMultiA k ks => ([], (n_multi_a, leaf (dec k) :: map (fun k => leaf (print_key k)) ks))
+  | MSortedMultiA k ks => ([], (n_sortedmulti_a, leaf (dec k) :: map (fun k => leaf (print_key k)) ks))
+  end.
+Definition to_tree_sp (sp : ms -> bool) (m : ms) : etree := mk_node (tws sp m).
+
+(* every composite node passes from_ast (the expanded spellings call it at c:pk_k / c:pk_h too) *)
+Fixpoint ms_all_ok (m : ms) : bool :=
+  match m with
+  | MAfter t | MOlder t => lock_ok t
+  | MAlt x | MSwap x | MCheck x | MDupIf x | MVerify x | MNonZero x | MZeroNotEqual x => chk m && ms_all_ok x
+  | MAndV x y | MAndB x y | MOrB x y | MOrD x y | MOrC x y | MOrI x y => chk m && (ms_all_ok x && ms_all_ok y)
+  | MAndOr a b c => chk m && (ms_all_ok a && ms_all_ok b && ms_all_ok c)
+  | MThresh k xs => chk m && (validate_k_n 0 k (length xs) && (k <=? U32_MAX) && forallb ms_all_ok xs)
+  | MMulti k ks | MSortedMulti k ks => chk m && validate_k_n MAX_PUBKEYS_PER_MULTISIG k (length ks)
+  | MMultiA k ks | MSortedMultiA k ks => chk m && validate_k_n MAX_PUBKEYS_IN_CHECKSIGADD k (length ks)
+  | _ => true
+  end.
+
 End TextModel.
